@@ -5,7 +5,7 @@ ROOT = os.path.dirname(os.path.dirname(os.path.dirname(os.path.abspath(__file__)
 rows = []
 for f in sorted(glob.glob(os.path.join(ROOT, 'seeded', '*', 'meta.json')), key=lambda p: (p.split('/')[-2].split('-')[0], int(p.split('/')[-2].split('-')[1]))):
     m = json.load(open(f))
-    rows.append('| %s | %s | %s | %s |' % (m['id'], m['breaks_property'], ', '.join(m['caught_by']), ' '.join(m['needs_to_manifest'].split()).replace('|', '/')))
+    rows.append('| %s | %s | %s | %s |' % (m['id'], m['breaks_property'], ', '.join(m['caught_by']), (' '.join(m['needs_to_manifest'].split()) + (' — OBSOLETE: ' + ' '.join(m['obsolete'].split()) if m.get('obsolete') else '')).replace('|', '/')))
 p = os.path.join(ROOT, 'DESIGN.md')
 s = open(p).read()
 head = '| change | breaks | caught by | what it needs to manifest |\n|---|---|---|---|\n'
